@@ -55,10 +55,11 @@ def run(harnesses, preamble, per_condition_timeout=10, procs=16, per_module=None
         if not hs:
             return {}, 0.0
         per_module = per_module or max(1, (len(hs) + procs * 2 - 1) // (procs * 2))
+        nmods = (len(hs) + per_module - 1) // per_module
         modules = []
-        for mi in range(0, len(hs), per_module):
-            chunk = hs[mi:mi + per_module]
-            path = os.path.join(tmp, "h%04d.py" % (mi // per_module))
+        for mi in range(nmods):
+            chunk = hs[mi::nmods]       # round robin: expensive harness kinds are spread over the modules
+            path = os.path.join(tmp, "h%04d.py" % mi)
             lines = preamble.rstrip().split("\n") + ["", ""]
             index = []
             for h in chunk:
